@@ -373,8 +373,11 @@ def judge_o_origin(inp, obs, lr):
 
 def rand_tv(rng, dim):
     k = G.fball(rng, dim, 0.95)
-    sc = rng.choice([-1, 1]) * rng.uniform(0.3, 3)
-    v = [rng.gauss(0, 1) for _ in range(dim + 1)]
+    # homogeneous scale of the basepoint's representative and length of the vector: usually moderate, sometimes extreme
+    ext = rng.random() < 0.2
+    sc = rng.choice([-1, 1]) * (10 ** rng.uniform(-12, 12) if ext else rng.uniform(0.3, 3))
+    vs = 10 ** rng.uniform(-9, 9) if ext else 1.0
+    v = [vs * rng.gauss(0, 1) for _ in range(dim + 1)]
     return {"k": k, "sc": sc, "v": v}
 
 
@@ -587,7 +590,11 @@ def gen_o_history(rng, n):
         # every history ends with the three queries, so that whatever happened before is observed
         steps += [{"op": "origin_to", "fo": rng.random() < 0.5}, {"op": "point_along", "t": G.rand_real(rng, -2.5, 2.5), "fo": True},
                   {"op": "isometry_to", "tv": rand_tv(rng, dim), "fo": rng.random() < 0.5}]
-        yield {"dim": dim, "start": rand_tv(rng, dim), "steps": steps, "obj": rng.choice(["tangent", "tangent", "point"])}
+        for st in steps:
+            if rng.random() < 0.35:
+                st["other"] = {"tv": rand_tv(rng, dim), "g": G.float_iso(rng, dim, k=2, tmax=1.0).tolist(), "t": rng.uniform(-2, 2)}
+        yield {"dim": dim, "start": rand_tv(rng, dim), "steps": steps, "obj": rng.choice(["tangent", "tangent", "point"]),
+               "f32": rng.random() < 0.1}
 
 
 def _tv_state(tv):
@@ -598,14 +605,53 @@ def _tv_state(tv):
     return p, w / math.sqrt(G.mink(w, w))
 
 
+def _tv_fresh(tv):
+    """G1: a new tangent vector from a copy of the current primary data, and nothing else"""
+    return H.TangentVector(np.array(tv.proj_data).copy())
+
+
+def _tv_answers(tv, t, fo, spoil=False):
+    """origin_to and point_along as arrays; with spoil the arrays handed out are overwritten afterwards (G2)"""
+    M = tv.origin_to(force_oriented=fo)
+    m = np.array(M.proj_data, dtype=float).copy()
+    x = tv.normalized().point_along(t)
+    xd = np.array(x.proj_data, dtype=float).copy()
+    if spoil:
+        for a in (M.proj_data, x.proj_data):
+            if isinstance(a, np.ndarray) and a.flags.writeable:
+                a[...] = np.nan
+    return m[:2], xd / np.linalg.norm(xd)
+
+
 def run_o_history(inp):
     dim = inp["dim"]
     bt = H.TangentVector.get_base_tangent(dim)
     o = H.Point.get_origin(dim)
     tv = mk_tv(inp["start"])
+    if inp.get("f32"):
+        tv = H.TangentVector(np.array(tv.proj_data).astype(np.float32))
+    ftol = 2e-3 if inp.get("f32") else 1e-7
     log = []
     for k, st in enumerate(inp["steps"]):
         op = st["op"]
+        if st.get("other") is not None and inp["obj"] == "tangent":
+            # G3: the same kinds of calls on an unrelated tangent vector in between
+            ot = mk_tv(st["other"]["tv"])
+            ot.origin_to()
+            ot2 = H.Isometry(np.array(st["other"]["g"])) @ ot
+            a1 = _tv_answers(ot2, st["other"]["t"], True)
+            a2 = _tv_answers(_tv_fresh(ot2), st["other"]["t"], True)
+            log.append({"k": k, "op": "other", "what": "unrelated tangent vector: moved image answers like a fresh object",
+                        "ok": bool(np.abs(a1[0] - a2[0]).max() <= 1e-7 and np.abs(a1[1] - a2[1]).max() <= 1e-7)})
+        if inp["obj"] == "tangent" and op in ("origin_to", "point_along", "isometry_to"):
+            # G1 + G2 at every query: answers equal those of a fresh object; overwriting returned arrays changes nothing
+            tq = G.val(st["t"]) if op == "point_along" else 0.7
+            a1 = _tv_answers(tv, tq, st.get("fo", True), spoil=True)
+            a2 = _tv_answers(tv, tq, st.get("fo", True))
+            a3 = _tv_answers(_tv_fresh(tv), tq, st.get("fo", True))
+            log.append({"k": k, "op": op, "what": "answers equal those of a fresh object with the same data, and survive overwriting returned arrays",
+                        "ok": bool(np.abs(a1[0] - a3[0]).max() <= ftol and np.abs(a1[1] - a3[1]).max() <= ftol
+                                   and np.abs(a1[0] - a2[0]).max() <= 1e-12 and np.abs(a1[1] - a2[1]).max() <= 1e-12)})
         if inp["obj"] == "point":
             # the same history on the basepoint alone: Point.origin_to after transformations
             pt = H.Point(np.array(tv.point, dtype=float).copy()) if k == 0 else pt
